@@ -49,6 +49,7 @@ def hints (h : List (String × Option Nat × Option Int)) (s : String) : Option 
 def nativeExt (h : List (String × Option Nat × Option Int)) : Ext Nat :=
   { toIntExact := f64ToIntExact
     f2i := f64ToInt
+    trunc := f64Trunc
     ofInt := fun n => (Float.ofInt n).toBits.toNat
     round32 := fun b => (Float.ofBits (UInt64.ofNat b)).toFloat32.toFloat.toBits.toNat
     isFinite := fun b => (decodeF64 b).isSome
